@@ -439,6 +439,20 @@ def generate(tier, seed):
     rng = random.Random(13000 + seed)
     thorough = tier == "thorough"
     yield from _all_for(WIT, rng, True)
+    # missing feature cells inside small groups (a missing cell is one distinct empty value; the rows still count as members)
+    holes = [["a", 1, "AA", None], ["a", 1, "AA", "x"], ["b", 2, "AC", None], ["b", 2, "AC", None], ["c", 3, "AD", "y"], ["c", 3, "AD", None], ["c", 3, "AD", "y"],
+             ["d", 4, "AE", None]]
+    for by in ("g1", ["g1", "g2"]):
+        yield "pc_conditional", {"rows": holes, "cols": COLS, "by": by, "on": ["seq", "f"]}, True
+        yield "pc_conditional", {"rows": holes, "cols": COLS, "by": by, "on": ["seq", "f"], "weights": [1, 2, 3]}, True
+        yield "pc_grouped_cross", {"rows": holes, "cols": COLS, "by": by if isinstance(by, str) else by, "on": ["seq", "f"]}, True
+    yield "renyi", {"rows": holes, "cols": COLS, "features": ["seq", "f"], "by": "g1", "base": 2.0}, True
+    # bin edges that start above 0 / at fractional values, with duplicated sequences in the groups
+    dups = [["a", 1, "CASF", "x"], ["a", 1, "CASF", "x"], ["a", 1, "CASSF", "y"], ["b", 2, "CAWF", "x"], ["b", 2, "CAWF", "z"], ["b", 2, "CAWF", "w"], ["b", 2, "CAF", "w"]]
+    for bins in ([1, 2, 3, 4, 5, 6], [0.5, 1.5, 2.5], [2, 4]):
+        yield "pcDelta_grouped", {"rows": dups, "cols": COLS, "by": "g1", "seq": "seq", "bins": bins}, True
+        yield "pcDelta_grouped", {"rows": dups, "cols": COLS, "by": "g1", "seq": "seq", "bins": bins, "normalize": False}, True
+        yield "pcDelta_grouped_cross", {"rows": dups, "cols": COLS, "by": "g1", "seq": "seq", "bins": bins, "condensed": True}, True
     distinct = [["a", 1, "AA", "x"], ["a", 1, "AB", "y"], ["b", 2, "AC", "x"], ["b", 2, "AD", "z"], ["a", 2, "BA", "w"]]      # pc exactly 0
     for base in (2.0, 10.0, None):
         yield "renyi", {"rows": distinct, "cols": COLS, "features": "seq", "base": base}, True
